@@ -1080,4 +1080,129 @@ theorem crossLink_inrange (n : List (Link α)) (i : Nat) (l f a b p q : Link α)
   by_cases h1 : l.idxFlip = 0 <;> by_cases h2 : l.idxNext = 0 <;> by_cases h3 : l.idxPrev = 0 <;>
     simp [h1, h2, h3]
 
+theorem nextPart_iff (l a b : Link α) (ha0 : a.idxCurr = 0 ↔ l.idxNext = 0)
+    (hb0 : b.idxCurr = 0 ↔ l.idxNextAlt = 0) (hna : l.idxNextAlt ≠ 0 → l.idxNext ≠ 0) :
+    (if l.idxNext ≠ 0 then
+        (!(isLinkedPrev a l.idxCurr) || (decide (l.idxNextAlt ≠ 0) && decide (a.idxPrevAlt ≠ 0)) ||
+         !(isLinkedPrev b l.idxCurr) || (decide (l.idxNextAlt ≠ 0) && decide (b.idxPrevAlt ≠ 0)))
+       else decide (l.idxNextAlt ≠ 0)) = false ↔
+      ((l.idxNext = 0 ∨ a.idxPrev = l.idxCurr ∨ a.idxPrevAlt = l.idxCurr) ∧
+       (l.idxNextAlt = 0 ∨ b.idxPrev = l.idxCurr ∨ b.idxPrevAlt = l.idxCurr) ∧
+       (l.idxNextAlt = 0 ∨ (a.idxPrevAlt = 0 ∧ b.idxPrevAlt = 0))) := by
+  by_cases h2 : l.idxNext = 0
+  · simp only [h2, ne_eq, not_true_eq_false, if_false, decide_eq_false_iff_not, not_not, true_or,
+      true_and]
+    constructor <;> intro h <;> omega
+  · simp only [h2, isLinkedPrev, ne_eq, not_false_eq_true, if_true, Bool.or_eq_false_iff,
+      Bool.and_eq_false_iff, Bool.not_eq_false', decide_eq_false_iff_not, decide_eq_true_eq,
+      Bool.or_eq_true, not_not, false_or]
+    constructor <;> intro h <;> omega
+
+theorem prevPart_iff (l p q : Link α) (hp0 : p.idxCurr = 0 ↔ l.idxPrev = 0)
+    (hq0 : q.idxCurr = 0 ↔ l.idxPrevAlt = 0) (hpa : l.idxPrevAlt ≠ 0 → l.idxPrev ≠ 0) :
+    (if l.idxPrev ≠ 0 then
+        (!(isLinkedNext p l.idxCurr) || (decide (l.idxPrevAlt ≠ 0) && decide (p.idxNextAlt ≠ 0)) ||
+         !(isLinkedNext q l.idxCurr) || (decide (l.idxPrevAlt ≠ 0) && decide (q.idxNextAlt ≠ 0)))
+       else decide (l.idxPrevAlt ≠ 0)) = false ↔
+      ((l.idxPrev = 0 ∨ p.idxNext = l.idxCurr ∨ p.idxNextAlt = l.idxCurr) ∧
+       (l.idxPrevAlt = 0 ∨ q.idxNext = l.idxCurr ∨ q.idxNextAlt = l.idxCurr) ∧
+       (l.idxPrevAlt = 0 ∨ (p.idxNextAlt = 0 ∧ q.idxNextAlt = 0))) := by
+  by_cases h2 : l.idxPrev = 0
+  · simp only [h2, ne_eq, not_true_eq_false, if_false, decide_eq_false_iff_not, not_not, true_or,
+      true_and]
+    constructor <;> intro h <;> omega
+  · simp only [h2, isLinkedNext, ne_eq, not_false_eq_true, if_true, Bool.or_eq_false_iff,
+      Bool.and_eq_false_iff, Bool.not_eq_false', decide_eq_false_iff_not, decide_eq_true_eq,
+      Bool.or_eq_true, not_not, false_or]
+    constructor <;> intro h <;> omega
+
+theorem crossLink_ok_iff (n : List (Link α)) (i : Nat) (l : Link α)
+    (H0 : ∀ j m, n[j]? = some m → (m.idxCurr = 0 ↔ j = 0))
+    (hcurr : l.idxCurr ≠ 0)
+    (hfd : l.idxFlip ≠ 0 → l.idxFlip ≠ l.idxCurr)
+    (hna : l.idxNextAlt ≠ 0 → l.idxNext ≠ 0) (hpa : l.idxPrevAlt ≠ 0 → l.idxPrev ≠ 0) :
+    crossLink n i l = .ok ↔ CrossOK n i l := by
+  by_cases hr : (l.idxFlip < n.length ∧ l.idxNext < n.length ∧ l.idxNextAlt < n.length ∧
+      l.idxPrev < n.length ∧ l.idxPrevAlt < n.length)
+  · obtain ⟨r1, r2, r3, r4, r5⟩ := hr
+    have hf := List.getElem?_eq_getElem r1
+    have ha := List.getElem?_eq_getElem r2
+    have hb := List.getElem?_eq_getElem r3
+    have hp := List.getElem?_eq_getElem r4
+    have hq := List.getElem?_eq_getElem r5
+    generalize n[l.idxFlip] = f at hf
+    generalize n[l.idxNext] = a at ha
+    generalize n[l.idxNextAlt] = b at hb
+    generalize n[l.idxPrev] = p at hp
+    generalize n[l.idxPrevAlt] = q at hq
+    rw [crossLink_inrange n i l f a b p q hf ha hb hp hq]
+    have hite : ∀ (b : Bool), ((if b = true then Outcome.err else Outcome.ok) = .ok) ↔ b = false := by
+      intro b; cases b <;> simp
+    rw [hite, Bool.or_eq_false_iff, Bool.or_eq_false_iff, Bool.or_eq_false_iff, Bool.or_eq_false_iff,
+      nextPart_iff l a b (H0 _ a ha) (H0 _ b hb) hna, prevPart_iff l p q (H0 _ p hp) (H0 _ q hq) hpa]
+    simp only [Bool.and_eq_false_iff, decide_eq_false_iff_not, ne_eq, not_not]
+    constructor
+    · rintro ⟨⟨⟨⟨h1, h1'⟩, h2⟩, h3, h4, h7⟩, h5, h6, h8⟩
+      subst h1
+      refine ⟨rfl, ⟨r1, r2, r3, r4, r5⟩, fun hne => ⟨f, hf, h2.resolve_left hne⟩, ?_, ?_, ?_, ?_⟩
+      · rintro j (rfl | rfl) hj
+        · exact ⟨a, ha, h3.resolve_left hj⟩
+        · exact ⟨b, hb, h4.resolve_left hj⟩
+      · rintro j (rfl | rfl) hj
+        · exact ⟨p, hp, h5.resolve_left hj⟩
+        · exact ⟨q, hq, h6.resolve_left hj⟩
+      · rintro hne j (rfl | rfl) m hm
+        · rw [ha] at hm; cases hm; exact (h7.resolve_left hne).1
+        · rw [hb] at hm; cases hm; exact (h7.resolve_left hne).2
+      · rintro hne j (rfl | rfl) m hm
+        · rw [hp] at hm; cases hm; exact (h8.resolve_left hne).1
+        · rw [hq] at hm; cases hm; exact (h8.resolve_left hne).2
+    · intro h
+      have hi := h.index
+      subst hi
+      refine ⟨⟨⟨⟨rfl, ?_⟩, ?_⟩, ?_, ?_, ?_⟩, ?_, ?_, ?_⟩
+      · intro he
+        have := hfd (by omega)
+        exact this he
+      · by_cases hne : l.idxFlip = 0
+        · exact Or.inl hne
+        · obtain ⟨f', hf', h'⟩ := h.flip hne
+          rw [hf] at hf'; cases hf'; exact Or.inr h'
+      · by_cases hne : l.idxNext = 0
+        · exact Or.inl hne
+        · obtain ⟨m, hm, h'⟩ := h.nextRecip _ (Or.inl rfl) hne
+          rw [ha] at hm; cases hm; exact Or.inr h'
+      · by_cases hne : l.idxNextAlt = 0
+        · exact Or.inl hne
+        · obtain ⟨m, hm, h'⟩ := h.nextRecip _ (Or.inr rfl) hne
+          rw [hb] at hm; cases hm; exact Or.inr h'
+      · by_cases hne : l.idxNextAlt = 0
+        · exact Or.inl hne
+        · exact Or.inr ⟨h.switchNext hne _ (Or.inl rfl) a ha, h.switchNext hne _ (Or.inr rfl) b hb⟩
+      · by_cases hne : l.idxPrev = 0
+        · exact Or.inl hne
+        · obtain ⟨m, hm, h'⟩ := h.prevRecip _ (Or.inl rfl) hne
+          rw [hp] at hm; cases hm; exact Or.inr h'
+      · by_cases hne : l.idxPrevAlt = 0
+        · exact Or.inl hne
+        · obtain ⟨m, hm, h'⟩ := h.prevRecip _ (Or.inr rfl) hne
+          rw [hq] at hm; cases hm; exact Or.inr h'
+      · by_cases hne : l.idxPrevAlt = 0
+        · exact Or.inl hne
+        · exact Or.inr ⟨h.switchPrev hne _ (Or.inl rfl) p hp, h.switchPrev hne _ (Or.inr rfl) q hq⟩
+  · rw [crossLink_oob n i l hr]
+    constructor
+    · intro h; cases h
+    · intro h; exact absurd h.refs hr
+
+theorem crossLink_ne_panic (n : List (Link α)) (i : Nat) (l : Link α) :
+    crossLink n i l ≠ .panic := by
+  by_cases hr : (l.idxFlip < n.length ∧ l.idxNext < n.length ∧ l.idxNextAlt < n.length ∧
+      l.idxPrev < n.length ∧ l.idxPrevAlt < n.length)
+  · obtain ⟨r1, r2, r3, r4, r5⟩ := hr
+    rw [crossLink_inrange n i l _ _ _ _ _ (List.getElem?_eq_getElem r1) (List.getElem?_eq_getElem r2)
+      (List.getElem?_eq_getElem r3) (List.getElem?_eq_getElem r4) (List.getElem?_eq_getElem r5)]
+    split_ifs <;> simp
+  · rw [crossLink_oob n i l hr]; simp
+
 end Altrios.Proofs.NetL
